@@ -127,8 +127,10 @@ impl GLM {
     }
 
     fn apply_dbeta_penalty(&self, dbeta: &mut [f64], coef: &[f64]) {
+        // gradient of (alpha / 2) * sum_{i >= 1} coef[i]^2: the strength multiplies the coefficient (the
+        // information matrix gets alpha on its diagonal in apply_ddbeta_penalty); the intercept is not penalised
         for i in 1..coef.len() {
-            dbeta[i] += coef[i];
+            dbeta[i] += self.alpha * coef[i];
         }
     }
 
